@@ -82,6 +82,8 @@ func c18Dur(class string) time.Duration {
 		return 40 * c18Tick
 	case "zero":
 		return 0
+	case "mute":
+		return -2 // never; the client half-closes and the upstream stays silent
 	}
 	return -1 // never
 }
@@ -94,6 +96,21 @@ type c18Up struct {
 	mu    sync.Mutex
 	ended map[string]time.Time // id -> when the server side of the item ended (finished or failed)
 	stop  chan struct{}        // closed at the end of a scenario: open work is abandoned
+	muted map[string]chan struct{} // id -> closed when the upstream has seen the request and the client's EOF
+}
+
+func (u *c18Up) mutedCh(id string) chan struct{} {
+	u.mu.Lock()
+	defer u.mu.Unlock()
+	if u.muted == nil {
+		u.muted = map[string]chan struct{}{}
+	}
+	ch := u.muted[id]
+	if ch == nil {
+		ch = make(chan struct{})
+		u.muted[id] = ch
+	}
+	return ch
 }
 
 func (u *c18Up) newScenario() {
@@ -153,6 +170,13 @@ func (u *c18Up) serveLine(c net.Conn) {
 		return
 	}
 	defer u.end(id)
+	if ns == -2 {
+		// a silent upstream: it reads the client's EOF, answers nothing and keeps its side open
+		io.Copy(io.Discard, br)
+		close(u.mutedCh(id))
+		<-u.stopCh()
+		return
+	}
 	if _, err := io.WriteString(c, "start\n"); err != nil {
 		return
 	}
@@ -288,6 +312,27 @@ func (w *c18World) close() {
 	w.grpcUp.Stop()
 }
 
+// c18TwinOK reports whether a second loopback address can be bound on this machine.
+func c18TwinOK() bool {
+	ln, err := net.Listen("tcp", "127.0.0.2:0")
+	if err != nil {
+		return false
+	}
+	ln.Close()
+	return true
+}
+
+// c18TwinAddr returns addr's port on 127.0.0.2 if it is free there.
+func c18TwinAddr(addr string) (string, bool) {
+	_, port, _ := net.SplitHostPort(addr)
+	ln, err := net.Listen("tcp", "127.0.0.2:"+port)
+	if err != nil {
+		return "", false
+	}
+	ln.Close()
+	return "127.0.0.2:" + port, true
+}
+
 func c18FreeAddr() (string, error) {
 	ln, err := net.Listen("tcp", "127.0.0.1:0")
 	if err != nil {
@@ -302,6 +347,10 @@ func c18Target(addr string) func(string) *route.Target {
 	return func(string) *route.Target { return t }
 }
 
+// a kind written "k~2" is a second listener of kind k on 127.0.0.2, on the port of another listener
+func c18Base(kind string) string { return strings.TrimSuffix(kind, "~2") }
+func c18Twin(kind string) bool   { return strings.HasSuffix(kind, "~2") }
+
 type c18Server struct {
 	kind   string
 	addr   string
@@ -310,15 +359,21 @@ type c18Server struct {
 }
 
 // start brings one listener of the kind up through the package's own entry point.
-func (w *c18World) start(kind string) (*c18Server, error) {
+func (w *c18World) start(name, fixedAddr string) (*c18Server, error) {
 	var lastErr error
+	kind := c18Base(name)
 	for try := 0; try < 5; try++ {
-		addr, err := c18FreeAddr()
-		if err != nil {
-			return nil, err
+		addr := fixedAddr
+		if addr == "" {
+			var err error
+			if addr, err = c18FreeAddr(); err != nil {
+				return nil, err
+			}
+		} else if try > 0 {
+			break
 		}
 		l := config.Listen{Addr: addr, Proto: kind}
-		s := &c18Server{kind: kind, addr: addr, served: make(chan error, 1)}
+		s := &c18Server{kind: name, addr: addr, served: make(chan error, 1)}
 		mp := metrics.DiscardProvider{}
 		go func() {
 			switch kind {
@@ -354,9 +409,11 @@ func (w *c18World) start(kind string) (*c18Server, error) {
 				s.served <- fmt.Errorf("unknown kind %q", kind)
 			}
 		}()
-		// readiness: the server is in the registry (it is put there after the listener is open)
+		// readiness: the server is in the registry under its address (it is put there after the listener
+		// is open) -- or, should the registry know it under another name, its port accepts connections
 		deadline := time.Now().Add(5 * time.Second)
-		for time.Now().Before(deadline) {
+		failed := false
+		for n := 0; time.Now().Before(deadline) && !failed; n++ {
 			mu.Lock()
 			s.srv = servers[addr]
 			mu.Unlock()
@@ -365,14 +422,21 @@ func (w *c18World) start(kind string) (*c18Server, error) {
 			}
 			select {
 			case err := <-s.served:
-				lastErr = fmt.Errorf("%s on %s: %v", kind, addr, err)
-				deadline = time.Now()
+				lastErr = fmt.Errorf("%s on %s: %v", name, addr, err)
+				failed = true
+				continue
 			default:
-				time.Sleep(time.Millisecond)
 			}
+			if n > 300 && n%50 == 0 {
+				if c, err := net.DialTimeout("tcp", addr, 200*time.Millisecond); err == nil {
+					c.Close()
+					return s, nil // listening, but not to be found in the registry
+				}
+			}
+			time.Sleep(time.Millisecond)
 		}
 		if lastErr == nil {
-			lastErr = fmt.Errorf("%s on %s never appeared in the registry", kind, addr)
+			lastErr = fmt.Errorf("%s on %s never came up", name, addr)
 		}
 	}
 	return nil, lastErr
